@@ -223,11 +223,18 @@ def _run(ctx, d, BaseHeader, Header, MPI, SubHeader, String2Key, PubKeyV4, Creat
     ts = [0, 1, 2, 59, 60, 86399, 86400, 2**31 - 2, 2**31 - 1, 2**31, 2**31 + 1, 2**32 - 2, 2**32 - 1, 951782400, 1709164800, 4107542399]
     ts += [ctx.rng.randrange(2**32) for _ in range(ctx.n(300, 5000))]
     for t in ts:
-        ct = CreationTime()
-        ct.created = bytearray(t.to_bytes(4, 'big'))
-        ct.update_hlen()
-        enc = bytes(ct.__bytearray__())
+        def _enc(t=t):
+            ct = CreationTime()
+            ct.created = bytearray(t.to_bytes(4, 'big'))
+            ct.update_hlen()
+            return bytes(ct.__bytearray__()), calendar.timegm(ct.created.utctimetuple())
+        import calendar
         ctx.case('time4', t)
+        eo = outcome(_enc)
+        if eo[0] != 'ok' or eo[1][1] != t:
+            ctx.fail('time4', 'four-octet creation time does not decode to the RFC 4880 3.5 value (unsigned seconds since 1970)', {'op': 'time', 't': t, 'impl': repr(eo)[:200]})
+            continue
+        enc = eo[1][0]
         mo = unhx(d.call('time4', hn(t)))
         ctx.expect_eq('time4', 'time field differs from model', {'op': 'time', 't': t}, enc[-4:], mo)
         if enc[-4:] != t.to_bytes(4, 'big'):
@@ -307,7 +314,15 @@ def replay(ctx, case):
         v = int(case['v'], 16)
         buf = bytearray(MPI(v).to_mpibytes() + tr)
         return int(MPI(buf)) != v or bytes(buf) != tr
-    if op in ('hdr_parse', 'sub_parse', 'mpi_parse', 'sub_emit', 'newhdr', 'partial', 'count', 'time'):
+    if op == 'time':
+        import calendar
+        from pgpy.packet.subpackets.signature import CreationTime
+        t = case['t']
+        def _enc():
+            ct = CreationTime(); ct.created = bytearray(t.to_bytes(4, 'big')); ct.update_hlen()
+            return bytes(ct.__bytearray__())[-4:], calendar.timegm(ct.created.utctimetuple())
+        return outcome(_enc) != ('ok', (t.to_bytes(4, 'big'), t))
+    if op in ('hdr_parse', 'sub_parse', 'mpi_parse', 'sub_emit', 'newhdr', 'partial', 'count'):
         # model/implementation disagreement: re-run the suite that produced it
         d = Driver('c09')
         try:
